@@ -50,6 +50,17 @@ void sl_clear(static_list *self)
 {
 @clear@
 }
+/* clear() cut at its loop boundary: the statements before the loop, and one execution of the loop body; the
+   locals `next` / `cur` are harness globals */
+node *next, *cur;
+void sl_clear_prologue(static_list *self)
+{
+@clear_pro@
+}
+void sl_clear_body(static_list *self)
+{
+@clear_body@
+}
 
 _Bool sl_empty(const static_list *self)
 {
@@ -261,6 +272,61 @@ void h_iter(void)
 }
 '''
 
+H_CLEAR = r'''
+/* clear(): inductive obligations.  Position i of the loop: `next` is seq[i] (null when i == n); every element
+   before i has null links, every element from i on still has its original next link.
+   roles: 0 seq[0], 1 seq[n-1], 2 seq[K] (Skolem), 5 seq[i], 6 seq[i+1] */
+static void state_at(size_t i, size_t K)
+{
+    role(0, 1, 0); role(1, 1, g_n - 1);
+    role(2, 1, K); role(3, 0, 0); role(4, 0, 0);
+    role(5, i < g_n, i); role(6, i < g_n && i + 1 < g_n, i + 1);
+    assume_wf();
+    /* elements before i were already unlinked */
+    for (size_t r = 0; r < NR; ++r)
+        if (g_valid[r] && g_idx[r] < i) { obj(r)->next_ptr = (node *)0; obj(r)->prev_ptr = (node *)0; }
+    for (size_t r = 0; r < NR; ++r) g_old[r] = *obj(r);
+    the_list.first = (node *)0;
+    next = i < g_n ? obj(5) : (node *)0;
+}
+#define CLEAR_INV_AT_K(i, K) (!((K) < g_n) || ((K) < (i) ? (obj(2)->next_ptr == (node *)0 && obj(2)->prev_ptr == (node *)0) \\
+                                                         : obj(2)->next_ptr == g_old[2].next_ptr))
+void h_clear_base(void)
+{
+    g_n = nondet_size_t();
+    size_t K = nondet_size_t();
+    role(0, 1, 0); role(1, 1, g_n - 1); role(2, 1, K); role(3, 0, 0); role(4, 0, 0); role(5, 0, 0); role(6, 0, 0);
+    assume_wf();
+    sl_clear_prologue(&the_list);
+    __CPROVER_assert(the_list.first == (node *)0, "C18 clear: the list is empty at once");
+    __CPROVER_assert(next == (g_n > 0 ? obj(0) : (node *)0), "clear loop entry: next is seq[0] (null for an empty list)");
+    __CPROVER_assert(!(K < g_n) || obj(2)->next_ptr == g_old[2].next_ptr, "clear loop entry: every element still has its original next link");
+    assert_dummies_unchanged();
+    YV_COVER(g_n > 1000 && K == 77, "long list");
+    YV_COVER(g_n == 0, "empty list");
+}
+void h_clear_step(void)
+{
+    g_n = nondet_size_t();
+    size_t i = nondet_size_t(), K = nondet_size_t();
+    __CPROVER_assume(i < g_n);                  /* loop condition: next != null <=> i < n */
+    state_at(i, K);
+    __CPROVER_assert(next != (node *)0, "loop condition holds exactly while i < n");
+    sl_clear_body(&the_list);
+    __CPROVER_assert(next == (i + 1 < g_n ? obj(6) : (node *)0), "clear step: next advances to seq[i+1] (null after the last element)");
+    __CPROVER_assert(obj(5)->next_ptr == (node *)0 && obj(5)->prev_ptr == (node *)0, "C18 clear step: the visited element has null links (it can be registered again)");
+    if (K < g_n) {
+        if (K <= i) __CPROVER_assert(obj(2)->next_ptr == (node *)0 && obj(2)->prev_ptr == (node *)0, "C18 clear step: elements up to i have null links");
+        else __CPROVER_assert(obj(2)->next_ptr == g_old[2].next_ptr, "clear step: elements after i keep their next link");
+    }
+    __CPROVER_assert(the_list.first == (node *)0, "first stays null");
+    assert_dummies_unchanged();
+    YV_COVER(g_n > 1000 && i == 500 && K == 499, "Skolem element just before");
+    YV_COVER(i + 1 == g_n, "last element");
+    YV_COVER(K > i + 5 && K < g_n, "Skolem element far behind");
+}
+'''
+
 # ------------------------------------------------------------------ bounded companion
 H_POOL = r'''
 #ifndef POOL
@@ -408,7 +474,28 @@ def extract_all():
     if len(re.findall(r'return\s+a\.ptr\s*==\s*b\.ptr\s*;', src)) != 2 or \
             len(re.findall(r'return\s+a\.ptr\s*!=\s*b\.ptr\s*;', src)) != 2:
         raise X.ExtractionBroken('iterator comparison: unexpected shape')
-    code = (FUNCS.replace('@push_back@', pb.body).replace('@remove@', rm.body)
+    # clear(): prologue / loop body (a changed skeleton only disables the two inductive clear jobs)
+    clear_pro = clear_body = ''
+    exs['clear_skeleton_problem'] = None
+    try:
+        hs = X.loop_headers(cl.body)
+        if len(hs) != 1 or X.norm_ws(cl.body[hs[0][1]:hs[0][2]]) != 'while (next)':
+            raise X.ExtractionBroken('clear(): unexpected loop skeleton')
+        mo = re.compile(r'\s*\{').match(cl.body, hs[0][2])
+        ob = mo.end() - 1
+        cb = X.match_close(cl.body, ob)
+        if cl.body[cb + 1:].strip():
+            raise X.ExtractionBroken('clear(): statements after the loop')
+        clear_pro = cl.body[:hs[0][1]]
+        clear_body = cl.body[ob + 1:cb]
+        clear_pro, n1 = re.subn(r'__auto_type\s+next\s*=', 'next =', clear_pro)
+        clear_body, n2 = re.subn(r'__auto_type\s+cur\s*=', 'cur =', clear_body)
+        if n1 != 1 or n2 != 1:
+            raise X.ExtractionBroken('clear(): locals next / cur not found')
+    except X.ExtractionBroken as e:
+        clear_pro = clear_body = ''
+        exs['clear_skeleton_problem'] = str(e)
+    code = (FUNCS.replace('@push_back@', pb.body).replace('@remove@', rm.body).replace('@clear_pro@', clear_pro).replace('@clear_body@', clear_body)
             .replace('@clear@', cl.body).replace('@empty@', em.body)
             .replace('@iter_inc@', inc_body).replace('@begin_arg@', mb.group(1)))
     return exs, code
@@ -446,12 +533,20 @@ def replay_pool(job, res, ob):
 
 def jobs(tier):
     exs, code = extract_all()
+    clear_problem = exs.pop('clear_skeleton_problem', None)
     allex = list(exs.values())
     out = []
     for cfg, h, entry, names, mo, mc in (
             ('remove', H_REMOVE, 'h_remove', ['remove'], 20, 5),
             ('push_back', H_PUSH, 'h_push_back', ['push_back'], 15, 3),
-            ('iteration', H_ITER, 'h_iter', ['iterator::operator++', 'begin', 'end', 'empty'], 8, 3)):
+            ('iteration', H_ITER, 'h_iter', ['iterator::operator++', 'begin', 'end', 'empty'], 8, 3),
+            ('clear-base', H_CLEAR, 'h_clear_base', ['clear'], 4, 2),
+            ('clear-step', H_CLEAR, 'h_clear_step', ['clear'], 6, 3)):
+        if cfg.startswith('clear-') and clear_problem:
+            bj = Job(unit='static_list', config=cfg, c_text='', entry='none')
+            bj.broken = 'loop skeleton of clear() is not the one the inductive obligations were written for: ' + clear_problem
+            out.append(bj)
+            continue
         out.append(Job(unit='static_list', config=cfg, c_text=COMMON + code + SKOLEM + h, entry=entry,
                        kind='proof', unwind=8, min_obligations=mo, min_cover=mc, object_bits=10,
                        functions=fdesc(exs, names), trusted=TRUSTED, assumptions=SK_ASSUME,
